@@ -349,6 +349,15 @@ namespace
         if (!E)
             return O;
         const Expr* S = strip(E);
+        // look through copy / move construction of the referenced object (by-value argument passing, return by value)
+        for (int i = 0; i < 4; ++i)
+        {
+            auto* CE = dyn_cast<CXXConstructExpr>(S);
+            if (!CE || CE->getNumArgs() != 1 || !CE->getConstructor()->isCopyOrMoveConstructor())
+                break;
+            S = strip(CE->getArg(0));
+            O["copied"] = true;
+        }
         O["t"] = txt(S);
         if (auto* M = dyn_cast<MemberExpr>(S))
         {
